@@ -24,14 +24,23 @@ CORR_IMPORTS = ['QV.C13.Model', 'QV.C13.Pure', 'QV.C13.Spec', 'QV.C13.Corr']
 CHECK_CORR = 'check_corr'
 CHECK_SPEC = 'check_spec'
 SHARD = 200
-RULE = ('scope stacks: DictScope root (values = small integers / dyadic rationals, volatile subset, sometimes a volatile '
-        'name that is not a key), then up to 6 layers of MappedScope (1-3 expressions over + - x /const Min Max, mostly '
+RULE = ('scope stacks: DictScope root (values = small integers / dyadic rationals as int / float / TimeType / numpy scalars, '
+        'zero in every type, volatile subset, sometimes a volatile '
+        'name that is not a key), then up to 6 layers of MappedScope (1-3 expressions over + - x /const /expression Min Max '
+        '(divisor values +-2^k or 0), mostly '
         'over available names, sometimes a missing one; 10 % expressions whose value does not depend on a variable they '
         'mention: 0*x, x-x (sympy cancels x), (x+1)(x-1)-x*x, Min+Max-x (sympy keeps x)), RangeScope (fresh index / index '
         'shadowing a constant / a volatile name / a mapped name) and JointScope (1-3 entries over independently '
         'generated sub-stacks, sometimes sharing one object); histories of 4-14 operations from {get, in, iter, len, '
         'keys, items, as_dict, get_volatile_parameters keys, get_volatile_parameters expressions evaluated at the '
-        'current and at changed constants, change_constants, ==/hash against a variant} on one object graph; thorough '
+        'current and at changed constants, change_constants, Scope.overwrite, ==/hash against a variant (identical / '
+        'permuted insertion orders / ints as floats / different)} on one object graph; plus a deterministic family: 3 '
+        'roots (1 / 2 / 3 volatile constants, zeros of three number types) x all stacks of <= 2 layers (quick: thinned by a '
+        'fixed rule; thorough: all, and 3 layers over the second root) out of 25 name-coincidence layers (a->a+1, v->7, '
+        'v->0, v->a, swaps, cycle, variable overwritten by the same mapping, divisions by volatile / constant names, loop '
+        'index = constant / volatile / mapped name, one object under two names) with a fixed ~40-op history (proper-subset '
+        'change_constants three times in a row to 0 / 0.0 / TimeType(0), two overwrites each followed by the volatile '
+        'queries, == against permuted and retyped twins); thorough '
         'adds all stacks of <= 3 layers over 3 names (complete for the 4 roots with a volatile constant, 25 % of the '
         '3-layer stacks for the 2 roots without) with a fixed full history.  Non-trivial = at least two layers and at '
         'least one layer that is not a DictScope; distinct = distinct canonical JSON.')
@@ -45,7 +54,8 @@ TRUSTED = [
     'harness: generators, scope builder, sym_to_json, exact number conversion (as_integer_ratio), Gallina printers',
 ]
 ASSUMPTIONS = [
-    'expressions are restricted to + - x, division by a non-zero constant, Min, Max over rationals',
+    'expressions are restricted to + - x, division (by a constant or by an expression; a divisor of value 0 = the scope '
+    'does not denote), Min, Max over rationals',
     '"depends on a volatile parameter" is read as syntactic dependence on the variables of the expression object '
     '(what the code computes); proved to over-approximate semantic dependence (C13_unreported_is_constant), the '
     'converse is refuted (C13_semantic_dependence_refuted)',
@@ -53,7 +63,13 @@ ASSUMPTIONS = [
     'scope that disagree on a shared name have no such environment)',
     'cross-class scope comparisons (e.g. JointScope == DictScope, which raises AttributeError) are not part of the property',
     'KeyError and ParameterNotProvidedException are the same observable error kind (JointScope raises a plain KeyError)',
-    'hash values are not modelled (eq => equal hash is observed on the implementation only)',
+    'hash VALUES are not compared: eq => equal hash is proved for the modelled __hash__ structure under every string / '
+    'tuple hash, every number hash that respects == and every order-independent frozenset combiner (CPython\'s is one), '
+    'and observed on the implementation in every change / == operation (incl. permuted and retyped twins)',
+    'Expression.__eq__ of the code is structural in sympy (Expression(1) != Expression(1.0)); the model compares '
+    'constants by value; scopes whose mapping constants differ only in number type are never compared',
+    'the heap theorem covers histories of queries on one object graph; change_constants / overwrite (which allocate new '
+    'objects) are covered through "every valid store", not by an allocator model',
 ]
 
 NAMES = ['p%d' % i for i in range(8)]
@@ -772,7 +788,7 @@ def fam_history(s):
 def family_names(max_depth, third=None, thin=1):
     """every stack of <= max_depth layers of fam_layers over every root of fam_roots, with fam_history; `third` restricts
     the layers used at depth 3; thin > 1 (quick tier): the two-layer stacks over the first and the third root are
-    thinned to every thin-th combination, those over the root with two volatile constants to every second one (fixed,
+    thinned to every (2*thin)-th combination, those over the root with two volatile constants to every thin-th one (fixed,
     not random); cases that leave the exactness bounds (a divisor value that is not +-2^k) are dropped"""
     layers = fam_layers()
     out = []
@@ -780,8 +796,10 @@ def family_names(max_depth, third=None, thin=1):
         for depth in range(0, max_depth + 1):
             for ci, combo in enumerate(itertools.product(*[(layers if (k < 2 or third is None) else third)
                                                            for k in range(depth)])):
-                if thin > 1 and depth == 2 and (ci % thin != ri if ri != 1 else ci % 2 != 0):
+                if thin > 1 and depth == 2 and (ci % (2 * thin) != ri if ri != 1 else ci % thin != 0):
                     continue
+                if depth == 3 and ri != 1:
+                    continue        # three-layer stacks only over the root with two volatile constants
                 s = root
                 for layer in combo:
                     s = fam_apply(s, layer)
@@ -869,7 +887,7 @@ def gen_cases(rng, tier, ctx):
         ops = rnd_ops(rng, s, rng.randint(4, 14))
         cases.append({'kind': 'hist', 'scope': s, 'ops': ops, 'src': 'malformed' if malformed else 'random'})
     if tier == 'thorough':
-        cases.extend(family_names(3, third=fam_layers()[:6] + fam_layers()[9:11] + fam_layers()[17:19]))
+        cases.extend(family_names(3, third=fam_layers()[:6] + fam_layers()[9:11] + fam_layers()[18:21]))
     else:
         cases.extend(family_names(2, thin=4))
     if tier == 'thorough':
@@ -1288,13 +1306,18 @@ MANIFEST = {
                   'report exactly the parameters that depend syntactically on a volatile constant (which covers every '
                   'semantic dependence), to report dependency expressions that evaluate, at the current and at changed '
                   'volatile constants, to the value in the scope rebuilt from those constants, to make change_constants '
-                  'equal to rebuilding, and to have an __eq__ that is an equivalence; the model is tied to the code by an '
+                  'equal to rebuilding (also in hash), to have an __eq__ that is an equivalence and implies equal __hash__ '
+                  '(for every admissible leaf hash / order-independent frozenset combiner, CPython\'s included), to make '
+                  'Scope.overwrite set exactly the given names to non-volatile constants, and - on an explicit heap in '
+                  'which joint-scope entries are shared objects with one set of memoisation fields - to answer every '
+                  'history of queries as the cache-free paths do; the model is tied to the code by an '
                   'exact correspondence check of operation histories on one object graph.',
-    'level_note': 'Trusted: Coq kernel, sympy evaluation/substitution of + - x /const Min Max on small dyadic rationals, '
-                  'frozendict, harness. Dependence is syntactic (over-approximation proved); hash values and cross-class '
-                  'scope equality are not modelled; shared sub-scope objects are covered by the cache invariant, not by '
-                  'an explicit heap.',
-    'technique': 'Coq proof (induction over the scope stack, cache-refinement invariant, substitution lemma) + '
+    'level_note': 'Trusted: Coq kernel, sympy evaluation/substitution of + - x / Min Max on small dyadic rationals '
+                  '(divisors +-2^k), frozendict, harness. Dependence is syntactic (over-approximation proved); concrete hash '
+                  'values, sympy-structural Expression equality (number types of constants) and cross-class scope '
+                  'equality are not modelled; change_constants / overwrite are not run on the explicit heap.',
+    'technique': 'Coq proof (induction over the scope stack, cache-refinement invariant on tree and heap, substitution '
+                 'lemma, permutation argument for hashes) + '
                  'correspondence check',
     'design_ref': 'DESIGN.md §5 C13',
 }
